@@ -28,6 +28,11 @@
 (*                                                                         *)
 (* Dev: named deviations (all off in the design check; used to show that    *)
 (* each invariant can fail, and by known findings).                         *)
+(*                                                                         *)
+(* DeliverOpen(accept) abstracts the ACCEPTING side's rendezvous (who takes *)
+(* the freshly opened session: Listener.Accept / Expect / Close against the *)
+(* open handler of the serve loop, several session ids and callers).  That  *)
+(* rendezvous is specified in IBBListen.tla (MCIBBListen, TrIBBListen).     *)
 (***************************************************************************)
 EXTENDS Integers, Sequences, FiniteSets, TLC
 
